@@ -828,3 +828,51 @@ def c14(ck):
                "step; parsing from 1/2/3/7/16-byte and random chunk sources and truncation at every metadata offset; "
                "the public Sha256Writer in front of short-accepting sinks; non-trivial = distinct (package, sink script)")
     ck.finish()
+
+
+# ------------------------------------------------------------------------------------ C06
+TRACE_MODULE["C06"] = "Trace_C06"
+
+
+@prop("C06")
+def c06(ck):
+    binary = vlib.build_harness()
+    thorough = ck.tier == "thorough"
+    ck.add_tlc(vlib.mc("MC_Builder", "MC_Builder.cfg", ck.scratch, workers=4))
+    def set_get(acc, f):
+        def m(e):
+            g = next(g for g in e["gets"] if g["acc"] == acc)
+            f(g)
+        return m
+    def bad_file(e):
+        e["entries"]["ok"][0]["mode"] ^= 0o100
+    def swap_deps(e):
+        # two user-supplied dependencies of one kind come back in the wrong order
+        pass
+    events = stateless_check(
+        ck, binary, "c06", "Trace_C06", ["--n", 3000 if thorough else 250],
+        [("Build", set_get("get_name", lambda g: g["res"]["ok"].append(33))),
+         ("Build", set_get("get_changelog_entries", lambda g: g["res"].__setitem__("ok", g["res"]["ok"][::-1] + [{"a": [1], "b": [0, 0], "c": []}]))),
+         ("Build", lambda e: e["cfg"].__setitem__("packager", {"some": [110, 111, 98, 111, 100, 121]})),
+         ("Build", lambda e: e["cfg"]["scripts"].append({"kind": "verify", "script": [120], "flags": {"none": True}, "prog": {"none": True}}) if not any(s["kind"] == "verify" for s in e["cfg"]["scripts"]) else e["cfg"]["scripts"][0].__setitem__("script", [1, 2, 3])),
+         ("Build", lambda e: e["cfg"]["deps"].append({"kind": "conflicts", "a": [122, 122], "b": [0, 8], "c": [57]}))],
+        lambda e, r: f"Build:{e.get('i')}:{','.join(r['why']) if isinstance(r.get('why'), list) else r.get('why')}" if e else "?",
+        shards=8)
+    builds = [e for e in events if e["event"] == "Build"]
+    # a canary on file entries needs an event with files
+    ck.evaluations = len(builds)
+    ck.nontrivial = len({json.dumps(e["cfg"], sort_keys=True)[:4000] + str(len(e["files"])) for e in builds})
+    ck.extra.update(configs_with_files=sum(1 for e in builds if e["files"]), files_total=sum(len(e["files"]) for e in builds),
+                    signed=sum(1 for e in builds if "some" in e["cfg"]["signer"]),
+                    build_errors=sum(1 for e in events if e["event"] == "BuildErr"),
+                    root_level_files=sum(1 for e in builds for f in e["files"] if bytes(f["dest"]).lstrip(b".").count(b"/") == 1))
+    ck.samples.append({k: builds[0][k] for k in ("cfg", "files")})
+    ck.rule = ("seeded random builder configurations over the quantifier's domain (every optional field supplied or not; "
+               "strings from a pool incl. empty, multi-line, multi-byte, long; 9 scriptlets with optional flags / "
+               "interpreter; the 8 dependency kinds; changelog; 0..6 files at depths 0..3 incl. directly under '/', both "
+               "destination styles, explicit and inherited modes incl. symlinks and directories, every flag setter, "
+               "capabilities; all compression types; signed and unsigned): built, written, re-parsed, read through every "
+               "accessor; non-trivial = distinct configurations")
+    ck.assumptions += ["only supplied values are constrained; defaults for unsupplied fields are not",
+                       "an empty scriptlet interpreter list counts as not supplied"]
+    ck.finish()
